@@ -189,6 +189,10 @@ class FakeKernel:
         self.trace_files = scn.get("trace_scope", "conductor")
         self.line_log = None
         self.in_del = 0
+        if self.sched.get("unrelated"):
+            # a child of this process that Conductor did not start (exits some time during the run)
+            self.proc[60001] = "running"
+            self.task_of[60001] = "//:__unrelated__"
 
     # ---- events
     def ev(self, **kw):
